@@ -444,12 +444,7 @@ Proof.
       replace (vkind_eqb (v_kind (new_vp sp w m th10 ex0)) VStuck) with false by (rewrite KIND; reflexivity).
       cbn [andb]. apply bvs_intro; auto. rewrite KIND. discriminate. }
     destruct (tally (zlen rs) (thr 1000 (zlen rs)) (sf_ids w)) as [| |id] eqn:TAL; [discriminate| |].
-    + inversion CAND; subst wsfs maj ex. clear CAND.
-      unfold own_sound. split; [reflexivity|]. split; [|split].
-      * apply wf_intro; cbn [new_vp v_sfs v_sp v_maj v_ex]; auto.
-        rewrite KIND. repeat split; auto. intros sf X. apply WIN; auto.
-      * apply VAL. exact I.
-      * cbn [new_vp v_sfs]. intros sf X. apply WIN in X. apply VF; tauto.
+    + discriminate.
     + assert (IDIN := tally_maj_in _ _ _ _ TAL).
       destruct (maj_fact w id sp WSP IDIN) as [m [FM [MI MS]]]. rewrite FM in CAND.
       destruct (expels_of_fact m ex0) eqn:EOF; [|discriminate].
